@@ -24,14 +24,7 @@ BARE_RUNTIME = exc_value("ext:builtins.RuntimeError", "in-trio-thread")
 
 def submit_channel(prog, cls):
     """the attribute holding the send side of open_memory_channel, and whether the class closes it"""
-    attr = None
-    for fis in cls.methods.values():
-        for fi in fis:
-            for n in ast.walk(fi.node):
-                if isinstance(n, ast.Assign) and isinstance(n.value, ast.Call) and prog.resolve(cls.module, n.value.func) == "ext:trio.open_memory_channel":
-                    t = n.targets[0]
-                    if isinstance(t, ast.Tuple) and isinstance(t.elts[0], ast.Attribute) and util.dotted(t.elts[0].value) == "self":
-                        attr = t.elts[0].attr
+    attr = common.runner_facts(prog, cls).get("submit_channel")
     closes = []
     if attr:
         for fis in cls.methods.values():
@@ -480,8 +473,12 @@ def service_typestate(chk):
                 chk.bad(rule, newf.qual, "constructing a service instance creates %d service units (required: exactly one)" % len(units), node=newf.node, stmt="unit-count")
                 ok = False
                 continue
-            if list(units[0][2])[1:] != [("sym", "flavour")] or units[0][2][0] != o.value:
-                chk.bad("O3.2", newf.qual, "the unit is created as ServiceUnit(%s)" % ", ".join(show(x) for x in units[0][2]), node=newf.node, stmt="unit-args")
+            uinit = prog.method(SERVICE_UNIT, "__init__")
+            uargs = dict(zip(uinit.params(), units[0][2]))
+            uargs.update({k: v for k, v in units[0][3] if k})
+            up = uinit.params()
+            if len(up) < 2 or uargs.get(up[1]) != ("sym", "flavour") or uargs.get(up[0]) != o.value:
+                chk.bad("O3.2", newf.qual, "the unit is created as ServiceUnit(%s)" % ", ".join(["%s" % show(x) for x in units[0][2]] + ["%s=%s" % (k, show(v)) for k, v in units[0][3] if k]), node=newf.node, stmt="unit-args")
                 ok = False
             stored = [e for e in o.path.events if e[0] == "store" and e[1][0] == "attr" and e[1][1] == o.value and e[2] == units[0]]
             if not stored:
@@ -577,7 +574,7 @@ def sweep_rules(chk):
                 ok = False
                 continue
             seen.add((running, len(starts)))
-            if starts and list(starts[0][2]) != [("attr", SELF, slots.service_meta(prog))]:
+            if starts and (list(starts[0][2]) + [v for k_, v in starts[0][3] if k_]) != [("attr", SELF, slots.service_meta(prog))]:
                 chk.bad("O3.6", st.qual, "units are started with %s instead of the runtime's meta runner" % [show(x) for x in starts[0][2]], node=st.node, stmt="start-arg")
                 ok = False
     if seen != {(True, 0), (False, 1)}:
@@ -585,6 +582,52 @@ def sweep_rules(chk):
         ok = False
     if ok:
         chk.ok(rule, sw.qual, "accept adopts the sweep before running; every cycle runs the adopt step before sleeping; the step examines every unit and starts exactly those not running", node=sw.node)
+
+
+def channel_writers(chk):
+    """O3.5b: the submit channel and the trio token are bound in the constructor (None) and inside the trio run only;
+    register_payload asserts both are set, so re-binding them (e.g. to None on close) makes adopt raise during shutdown"""
+    prog = chk.program
+    rule = "O3.5"
+    cls = prog.cls(TRIO_RUNNER)
+    attrs = [a for a in (common.runner_facts(prog, cls).get("submit_channel"),) if a]
+    try:
+        from .. import slots
+
+        attrs.append(slots.trio_token(prog, cls))
+    except Undecided:
+        pass
+    entry = None
+    for fis in cls.methods.values():
+        for fi in fis:
+            if any(isinstance(n, ast.Call) and prog.resolve(cls.module, n.func) == "ext:trio.open_memory_channel" for n in ast.walk(fi.node)):
+                entry = fi
+    ok = True
+    n_w = 0
+    for fis in cls.methods.values():
+        for fi in fis:
+            for n in ast.walk(fi.node):
+                tg = n.targets if isinstance(n, ast.Assign) else ([n.target] if isinstance(n, (ast.AnnAssign, ast.AugAssign)) else [])
+                flat = []
+                for t in tg:
+                    flat.extend(t.elts if isinstance(t, (ast.Tuple, ast.List)) else [t])
+                for t in flat:
+                    if isinstance(t, ast.Attribute) and util.dotted(t.value) == "self" and t.attr in attrs:
+                        n_w += 1
+                        chk.count()
+                        if fi.name == "__init__" or fi is entry:
+                            continue
+                        chk.bad(
+                            rule,
+                            fi.qual,
+                            "self.%s is re-bound in %s (%s): register_payload asserts it is set, so a registration that arrives afterwards -- e.g. while trio payloads are still in shielded cleanup -- raises AssertionError out of adopt() instead of being discarded"
+                            % (t.attr, fi.name, util.unparse(n)[:60]),
+                            node=n,
+                            stmt="rebinds %s in %s" % (t.attr, fi.name),
+                        )
+                        ok = False
+    if ok and n_w:
+        chk.ok(rule, cls.qual, "the submit channel and the trio token are bound only in the constructor and inside the trio run (%d writes)" % n_w, node=cls.node)
 
 
 def channel_capacity(chk):
@@ -624,6 +667,7 @@ def channel_capacity(chk):
 
 def run(chk):
     chk.guard("O3.8", TRIO_RUNNER, channel_capacity, chk)
+    chk.guard("O3.5", TRIO_RUNNER, channel_writers, chk)
     chk.guard("O3.5", TRIO_RUNNER, send_after_close, chk)
     chk.guard("O3.1", META, meta_register, chk)
     chk.guard("O3.1", "<runners>", runner_forwards, chk)
